@@ -146,11 +146,19 @@ func vObsVec(idx VectorIndex, dim int) []vObs {
 }
 
 func vObsText(idx TextIndex) []vObs {
+	return vObsTextQ(idx, []string{"a", "b", "a b", "fi", "z"})
+}
+
+func vObsTextQ(idx TextIndex, queries []string) []vObs {
 	var out []vObs
-	for _, q := range []string{"a", "b", "a b", "fi", "z"} {
+	for _, q := range queries {
 		for _, k := range []int{-1, 1} {
 			res, err := idx.NewSearch().WithQuery(q).WithK(k).Execute()
-			o := vObs{q: fmt.Sprintf("text %q k=%d", q, k), err: err != nil}
+			qs := q
+			if len(qs) > 40 {
+				qs = fmt.Sprintf("%s...(%d bytes)", qs[:20], len(qs))
+			}
+			o := vObs{q: fmt.Sprintf("text %q k=%d", qs, k), err: err != nil}
 			for _, x := range res {
 				o.ids = append(o.ids, x.Id)
 				o.sc = append(o.sc, float64(x.Score))
@@ -417,15 +425,42 @@ func vStoredOrCoded(idx VectorIndex, id uint32) bool {
 var vSerTexts = []string{"a", "a a b", "b c", "ﬁ É", ""}
 
 func vSerTextKind() *vSerKind {
+	return vSerTextKindWith("kind=bm25", vSerTexts, []string{"a", "b", "a b", "fi", "z"})
+}
+
+// vSerLongTexts: terms whose LENGTH is the swept quantity (one token of n letters / n
+// two-byte letters, n spaces between two words) for n around 2^8, 2^12, 2^16, 2^17.
+func vSerLongTexts(lens []int) (texts, queries []string) {
+	for _, n := range lens {
+		a, b := strings.Repeat("x", n), strings.Repeat("é", n)
+		texts = append(texts, a+" a", "b "+b, "p"+strings.Repeat(" ", n)+"q a")
+		queries = append(queries, a, b)
+	}
+	queries = append(queries, "a", "b", "q")
+	return
+}
+
+// vSerCollidingTexts: documents made of terms that collide under the usual 32-bit hashes
+// (zz_verif_collide.go); each term is also a query.
+func vSerCollidingTexts() (texts, queries []string) {
+	for _, c := range vCollidingTerms() {
+		texts = append(texts, c.A+" a "+c.A, c.B+" b")
+		queries = append(queries, c.A, c.B)
+	}
+	queries = append(queries, "a", "b")
+	return
+}
+
+func vSerTextKindWith(name string, texts, queries []string) *vSerKind {
 	return &vSerKind{
-		name:    "kind=bm25",
+		name:    name,
 		fresh:   func() any { return NewBM25SearchIndex() },
 		source:  func() any { return NewBM25SearchIndex() },
-		nvals:   len(vSerTexts),
-		add:     func(idx any, id uint32, val int) error { return idx.(*BM25SearchIndex).Add(id, vSerTexts[val]) },
+		nvals:   len(texts),
+		add:     func(idx any, id uint32, val int) error { return idx.(*BM25SearchIndex).Add(id, texts[val]) },
 		remove:  func(idx any, id uint32) error { return idx.(*BM25SearchIndex).Remove(id) },
 		flush:   func(idx any) error { return idx.(*BM25SearchIndex).Flush() },
-		observe: func(idx any) []vObs { return vObsText(idx.(*BM25SearchIndex)) },
+		observe: func(idx any) []vObs { return vObsTextQ(idx.(*BM25SearchIndex), queries) },
 		write:   func(idx any, w io.Writer) (int64, error) { return idx.(*BM25SearchIndex).WriteTo(w) },
 		read:    func(idx any, r io.Reader) (int64, error) { return idx.(*BM25SearchIndex).ReadFrom(r) },
 		holds: func(idx any, id uint32) bool {
@@ -992,6 +1027,13 @@ func vSerShards(mode, tier string) []vShard {
 		}})
 	}
 	if mode == "c07" {
+		// text kinds whose value alphabet is special: very long terms, hash-colliding terms.
+		// All documents of the alphabet are added (in order), every third removed, then the
+		// state is round-tripped after each step.
+		for _, k := range vSerSpecialTextKinds(tier) {
+			k := k
+			sh = append(sh, vShard{Name: strings.ReplaceAll(k.name, " ", ","), Run: func(c *vCtx) { vSerSpecialRun(c, k, mode) }})
+		}
 		// the dimension as a size parameter (five vectors, histories of depth 2)
 		for _, cfg := range vSerDimCfgs(tier) {
 			k := vSerVecKind(cfg)
@@ -1006,9 +1048,54 @@ func vSerShards(mode, tier string) []vShard {
 	return sh
 }
 
+func vSerSpecialTextKinds(tier string) []*vSerKind {
+	var out []*vSerKind
+	groups := [][]int{{255, 256, 257}, {4095, 4096, 4097}, {65535, 65536, 65537}, {70000, 131073}}
+	if tier == "thorough" {
+		groups = append(groups, []int{1<<20 - 1, 1<<20 + 1})
+	}
+	for _, g := range groups {
+		t, q := vSerLongTexts(g)
+		out = append(out, vSerTextKindWith(fmt.Sprintf("kind=bm25 long-terms=%v", g), t, q))
+	}
+	t, q := vSerCollidingTexts()
+	out = append(out, vSerTextKindWith("kind=bm25 colliding-terms", t, q))
+	return out
+}
+
+func vSerSpecialRun(c *vCtx, k *vSerKind, mode string) {
+	w := &vSerSys{c: c, k: k, mode: mode, maxN: k.nvals + 1, contDepth: 0}
+	w.Reset()
+	var hist []vOp
+	for i := 0; i < k.nvals; i++ {
+		op := vOp{K: "Add", A: i + 1, B: i}
+		w.Apply(op, hist, true)
+		hist = append(hist, op)
+	}
+	for i := 2; i < k.nvals; i += 3 {
+		op := vOp{K: "Remove", A: i + 1}
+		w.Apply(op, hist, true)
+		hist = append(hist, op)
+	}
+	op := vOp{K: "Flush"}
+	w.Apply(op, hist, true)
+	hist = append(hist, op)
+	c.Transitions += int64(len(hist))
+	c.Traces++
+	c.NewState(k.name)
+	c.Bound = "special text alphabets: all documents added, every third removed, flush; round trip after every step"
+}
+
 func vSerReplay(mode string) func(c *vCtx, v *vViolation) bool {
 	return func(c *vCtx, v *vViolation) bool {
 		name := strings.TrimSuffix(v.Config, " untrained")
+		for _, k := range vSerSpecialTextKinds("thorough") {
+			if k.name == name {
+				vSerSpecialRun(c, k, mode)
+				_, ok := c.viol[v.Sig()]
+				return ok
+			}
+		}
 		kinds := vSerKinds("thorough")
 		for _, cfg := range vSerDimCfgs("thorough") {
 			kinds = append(kinds, vSerVecKind(cfg))
